@@ -121,7 +121,7 @@ def eval_case(case: dict) -> dict:
         sites = {}
         for i, s in enumerate(r["sites"], 1):
             sites.setdefault(s, []).append(i)
-        return {"viol": viol, "nt": True, "evals": 1, "cnt": cnt, "ncalls": r["ncalls"], "site_points": sorted({v[0] for v in sites.values()} | {v[-1] for v in sites.values()}),
+        return {"viol": viol, "nt": stub not in ("ok", None) or pre != "absent", "evals": 1, "cnt": cnt, "ncalls": r["ncalls"], "site_points": sorted({v[0] for v in sites.values()} | {v[-1] for v in sites.values()}),
                 "nsites": len(sites), "result": r["result"][0],
                 "sample": {"method": method, "stub": stub, "pre": pre, "result": r["result"], "library_calls": r["ncalls"], "sites": len(sites)}}
     pts = case["points"]
@@ -144,7 +144,7 @@ def eval_case(case: dict) -> dict:
         cur = best.get(v["sig"])
         if cur is None or len(v["detail"]) < len(cur["detail"]):
             best[v["sig"]] = v
-    return {"viol": list(best.values()), "nt": cnt["runs"] > 1, "evals": cnt["runs"], "cnt": {k: v for k, v in cnt.items() if v}}
+    return {"viol": list(best.values()), "nt_n": cnt["faults_propagated"] + cnt["faults_swallowed"], "evals": cnt["runs"], "cnt": {k: v for k, v in cnt.items() if v}}
 
 
 def plan(run):
@@ -152,7 +152,7 @@ def plan(run):
     run.rule = ("export method {rtf,docx,html,pdf} x target {absent, exists, two missing directories} x converter stub {9 behaviours} without fault; then an injected Exception and "
                 "an injected BaseException at library call instances (quick: first and last instance of every call site, all three pre-states for write_rtf and write_html, "
                 "seed-rotated pre-state for docx/pdf; thorough: every instance, every pre-state, three documents), plus second faults after swallowed ones. "
-                "non-trivial = a run with an injected fault or a failing/malformed converter; distinct = (method, pre, stub, doc, fault point, fault class)")
+                "non-trivial = a run in which an injected fault fired, or a no-fault run with a failing/malformed converter or a non-empty target pre-state; distinct = (method, pre, stub, doc, fault point, fault class)")
     run.assumptions = ["crash = exception unwinding at a library function entry", "directories created for a missing parent path are not debris (not listed by the property)"]
     # 1. matrix without faults (also yields the call sites)
     base = []
